@@ -252,9 +252,29 @@ class StmtMixin:
 
     def s_For(self, st, fr):
         k, lc = self.loop_contract(st, fr)
+        it = self.eval(st.iter, fr)
+        items = None
+        if isinstance(it, VTuple):
+            items = it.items
+        elif isinstance(it, VList) and isinstance(self.get_payload(it.ref), PyListP):
+            items = list(self.get_payload(it.ref).items)
+        if items is not None and (lc is None or lc.get("unroll")) and len(items) <= 8:
+            # a loop over a literal of known length is unrolled (no invariant needed)
+            broke = False
+            for x in items:
+                self.assign(st.target, x, fr, st)
+                try:
+                    self.exec_block(st.body, fr)
+                except ContinueSig:
+                    continue
+                except BreakSig:
+                    broke = True
+                    break
+            if st.orelse and not broke:
+                self.exec_block(st.orelse, fr)
+            return
         if lc is None:
             raise Unsupported(f"loop #{k} of {fr.qualname} has no invariant")
-        it = self.eval(st.iter, fr)
         ghost = f"_it{k}"
         mode, aux = self.iter_mode(it, fr)
         fr.locals[ghost] = VInt(0)
